@@ -66,7 +66,7 @@ func sqlFor(ctx string, c Case) string {
 var wraps = map[string][]string{
 	"n": {"abs", "floor", "if_null:-9999", "coalesce:-9999"},
 	"s": {"upper", "length", "if_null:'zz'", "concat:'#'"},
-	"b": {"if_null:false"},
+	"b": {"coalesce:false"},
 }
 
 // expectArg gives the expected value of the arg context from the value of the inner expression.
@@ -108,7 +108,7 @@ func expectArg(wrap string, v rv) (rv, bool) {
 			return rNull, false
 		}
 		return rStr(v.s + "#"), true
-	case "if_null:false":
+	case "coalesce:false":
 		if v.k == 'b' && v.tv == 1 {
 			return rTrue, true
 		}
@@ -490,6 +490,9 @@ func genCase(t *rapid.T) Case {
 	c := Case{Mode: "expr"}
 	ty := []string{"n", "n", "n", "s", "s", "b", "b", "b", "b", "n"}[s.pick("roottype", 10)]
 	d := []int{1, 2, 2, 3, 3, 3, 4, 4}[s.pick("depth", 8)]
+	if ty == "b" && d < 2 && s.pick("boolcol", 3) > 0 {
+		d = 2
+	}
 	if mode == 7 {
 		c.Mode = "ill"
 		s.block["ill"] = false
